@@ -59,10 +59,16 @@ fn htab_remove(p: usize) -> bool {
 /// Runs `f` with allocation accounting suspended: what it allocates is never counted, neither
 /// now nor when it is freed later.
 pub fn harness<R>(f: impl FnOnce() -> R) -> R {
+    // the guard keeps the depth right when `f` unwinds
+    struct Depth;
+    impl Drop for Depth {
+        fn drop(&mut self) {
+            HARNESS_DEPTH.fetch_sub(1, Relaxed);
+        }
+    }
     HARNESS_DEPTH.fetch_add(1, Relaxed);
-    let r = f();
-    HARNESS_DEPTH.fetch_sub(1, Relaxed);
-    r
+    let _depth = Depth;
+    f()
 }
 
 /// Number of harness allocations the table could not hold (must stay 0 for the accounting to
